@@ -100,6 +100,42 @@ def check_surrogates_history(rep, wit):
             ok, _ = call("normalize_original_data", obj.normalize_original_data)
             continue
 
+        if name == "set_emb":
+            # the user assigns an embedding of re-scaled data through the public setter
+            dim, tau, scale = int(op[1]), int(op[2]), float(op[3])
+            n_emb = n - (dim - 1) * tau
+            new_emb = np.array([S.embed(scale * snap[i], dim, tau) for i in range(N)],
+                               dtype=float).reshape(N, n_emb, dim)
+
+            def assign():
+                obj.embedding = new_emb
+            call("Surrogates.embedding", assign)
+            continue
+
+        if name == "twins_keep":
+            # twins() of whatever embedding the object holds NOW (no re-assignment)
+            thr, md = float(op[1]), int(op[2])
+            cur = obj.embedding
+            if cur is None:
+                continue
+            cur = np.array(cur, dtype=float)
+            Tk = [S.twins_from_R(S.recurrence_matrix(cur[i], thr, strict=False), md)
+                  for i in range(cur.shape[0])]
+            rep.case(key, nontrivial=any(len(t) for T in Tk for t in T))
+            ok, tw = call("Surrogates.twins", lambda: obj.twins(thr, md))
+            if ok:
+                if len(tw) != cur.shape[0]:
+                    rep.fail("Surrogates.twins/exact", w,
+                             "%d twin lists for %d series" % (len(tw), cur.shape[0]))
+                else:
+                    for i in range(cur.shape[0]):
+                        d = S.twins_defect(tw[i], Tk[i])
+                        if d:
+                            rep.fail("Surrogates.twins/exact", w,
+                                     "series %d (current embedding): %s" % (i, d))
+                            break
+            continue
+
         if name == "wn":
             ok, out = call("white_noise_surrogates", obj.white_noise_surrogates)
             rep.case(key, nontrivial=has_two_values(snap),
@@ -469,6 +505,85 @@ def gen_surrogate_histories(rs, tier):
                "rng": int(rs.randint(0, 2 ** 31))}
 
 
+def _standardise(data):
+    m = data.mean(axis=1, keepdims=True)
+    sd = data.std(axis=1, keepdims=True)
+    sd[sd == 0] = 1
+    return (data - m) / sd
+
+
+def gen_rescaling_histories(rs, tier):
+    """Histories in which the data scale changes between two twin computations that use the SAME
+    embedding parameters and threshold: normalize_original_data() in between, or an embedding of
+    re-scaled data assigned through the setter in between.  The data are built so that the raw
+    and the standardised series have different recurrence structure at the chosen threshold
+    (e.g. two levels 0 / 0.3 with threshold 0.5: everything recurs before, only equal levels
+    after).  Every twin list and surrogate is checked against the object's current data."""
+    quick = tier == "quick"
+    grid = [(1, 1), (2, 1), (2, 2), (3, 1), (3, 2)]
+    mds = [0, 3, 7]
+    cases = []
+    for it in range(12 if quick else 60):
+        n = int(rs.randint(12, 40 if quick else 70))
+        N = int(rs.randint(1, 4))
+        flavour = it % 4
+        rows = []
+        for _ in range(N):
+            k = np.arange(n)
+            if flavour == 0:        # two levels, random pattern
+                rows.append(0.3 * rs.randint(0, 2, size=n).astype(float))
+            elif flavour == 1:      # two/three levels, periodic (many twins after rescaling)
+                p = int(rs.randint(2, 6))
+                base = 0.15 * rs.randint(0, 3, size=p).astype(float)
+                if base.max() == base.min():
+                    base[0] += 0.15
+                rows.append(base[k % p])
+            elif flavour == 2:      # small-amplitude sine with offset
+                rows.append(5.0 + 0.1 * np.sin(2 * np.pi * k / rs.uniform(4, 9)) +
+                            0.002 * rs.randn(n))
+            else:                   # large-amplitude periodic pattern (structure collapses when
+                p = int(rs.randint(2, 6))       # standardised: all distances fall below 2.5)
+                base = 20.0 * rs.permutation(6)[:p].astype(float)
+                rows.append(base[k % p] + k * 2.0 ** -10)
+        data = np.array(rows)
+        if any(r.max() == r.min() for r in data):
+            data[:, 0] += 0.3
+        cases.append((data, 0.5 if flavour < 3 else 2.5))
+    for data, thr in cases:
+        N, n = data.shape
+        std = _standardise(data.copy())
+        dim, tau = grid[int(rs.randint(0, len(grid)))]
+        dim2, tau2 = grid[int(rs.randint(0, len(grid)))]
+        md = int(mds[int(rs.randint(0, len(mds)))])
+        scale = float(rs.choice([0.01, 7.0, 40.0]))
+        # the threshold has to be clear of every distance at every scale that occurs
+        ok = True
+        for d_, t_ in ((dim, tau), (dim2, tau2)):
+            for arr in (data, std, scale * data, scale * std):
+                for i in range(N):
+                    if S.threshold_margin(S.embed(arr[i], d_, t_), thr) <= 1e-5:
+                        ok = False
+        if not ok:
+            continue
+        tw = ["twin", dim, tau, thr, md]
+        tw2 = ["twin", dim2, tau2, thr, md]
+        td = ["twins", dim, tau, thr, md]
+        keep = ["twins_keep", thr, md]
+        hists = [
+            [tw, ["norm"], tw, keep, tw],
+            [tw, keep, ["set_emb", dim, tau, scale], keep, tw, keep],
+            [td, ["norm"], td, keep],
+            [td, keep, ["norm"], keep, tw, keep],
+            [tw, tw2, tw, ["norm"], tw, tw2, tw],
+            [tw, ["set_emb", dim2, tau2, scale], keep, tw, ["norm"], ["set_emb", dim, tau, 1.0],
+             keep, tw],
+            [["wn"], tw, ["cn"], ["norm"], ["raaft", 1, "both"], tw, ["norm"], tw],
+        ]
+        for h in hists:
+            yield {"kind": "surrogates", "data": data.tolist(), "ops": h,
+                   "rng": int(rs.randint(0, 2 ** 31))}
+
+
 def gen_degenerate_histories():
     """Deterministic inputs on which a Fourier coefficient of a permuted row is exactly zero
     (integer rows summing to zero, constant rows, standardised rows)."""
@@ -588,7 +703,8 @@ def main():
 
     rs = np.random.RandomState(args.seed)
     budget = 55 if args.tier == "quick" else 540
-    gens = [gen_degenerate_histories(), gen_exhaustive_twins(args.tier),
+    gens = [gen_degenerate_histories(), gen_rescaling_histories(rs, args.tier),
+            gen_exhaustive_twins(args.tier),
             gen_surrogate_histories(rs, args.tier), gen_rp_histories(rs, args.tier)]
     for g in gens:
         for wit in g:
